@@ -228,6 +228,12 @@ func setOperationImpl(f func(s1, s2 cty.ValueSet) cty.ValueSet, allowUnknowns bo
 				// (For the same reason as we did this check for "first" above.)
 				return cty.UnknownVal(retType), nil
 			}
+			if !arg.Type().Equals(first.Type()) {
+				// This can happen only if the unified element type still has
+				// dynamically-typed parts, in which case we can't combine the
+				// sets until the types of all of their elements are known.
+				return cty.UnknownVal(retType), nil
+			}
 
 			argSet := arg.AsValueSet()
 			set = f(set, argSet)
